@@ -49,7 +49,7 @@ class C14(Check):
     required_theorems = ["modify_restore_partial", "modify_restore_absent_counterexample", "modify_restore_below_counterexample",
                          "modify_restore_emptydict_counterexample", "restore_clears_original", "modify_restore_meets_spec_partial",
                          "serialize_id", "deserialize_id_partial", "state_roundtrip_partial", "state_roundtrip_counterexample",
-                         "crash_old_or_new", "complete_write_reads_new", "crash_leaves_only_tmp", "atomic_write_conforms"]
+                         "crash_old_or_new", "complete_write_reads_new", "atomic_write_conforms"]
     technique = ("Lean 4 proof (round-trip law composed with C20's JSON/netstring theorems, algebra of modify/restore on value trees, invariant over "
                  "the system-call sequence of AtomicFile under an adversarial crash model) about hand-written executable models; correspondence by "
                  "differential execution of the real ModifyAttribute/RestoreAttribute, DumpObjects -> fresh process -> RestoreObjects + modified-attributes "
@@ -59,8 +59,8 @@ class C14(Check):
                   "for every list of objects whose state trees name only registered types in `type` keys and EVERY chunking of the state file, reading the frames, "
                   "JSON-decoding and deserialising onto freshly created objects yields exactly the dumped state (C20's json_roundtrip and "
                   "frames_split_regardless_of_chunking composed with Serialize/Deserialize); for every prefix of AtomicFile's system-call sequence and every crash "
-                  "view (any earlier directory state, arbitrary contents of unsynced files) the target path reads as the complete old or the complete new content, "
-                  "and only the temp file is left behind. The full statements are false of the pinned code in four ways, each carried as a kernel-checked counterexample "
+                  "view (any earlier directory state, arbitrary contents of unsynced files) the target path reads as the complete old or the complete new content. "
+                  " The full statements are false of the pinned code in four ways, each carried as a kernel-checked counterexample "
                   "and replayed on the real code on every run (known findings). The models are tied to the code by running the real functions on the same inputs "
                   "and diffing every observation; the specification predicates are evaluated on the implementation's own observations")
     level_note = ("Trusted: Lean kernel (+ propext, Classical.choice, Quot.sound), sampled correspondence, harness/driver, the kernel's rename atomicity and fsync "
@@ -89,7 +89,7 @@ class C14(Check):
             "DumpModifiedAttributes and AtomicFile::Write, a forked child dies inside it, the parent reads the file and loads it with the real loader in another child. "
             "evaluations = operations + restarts + kills; a case is non-trivial (distinct by hash of its operation lines, counted by the Lean driver) when it restored a "
             "modified path, went through a restart, or is a write with kill points")
-    max_groups = 30
+    max_groups = 150
 
     # ---- plumbing
 
@@ -193,6 +193,12 @@ class C14(Check):
     def classify(clause, tags):
         """Root cause of a failing witness from the driver's descriptive tags ('other' = not a recorded defect)."""
         if clause == "restoreIdentity":
+            if {"toprestore", "restoreunmodified"} <= tags and tags <= {"toprestore", "restoreunmodified", "absent", "above", "again"}:
+                return "restore-unmodified-toplevel"
+            if "dotkey" in tags and tags <= {"olddict", "dotkey"}:
+                return "dotted-key-flattened"
+            if "newkeys" in tags and tags <= {"olddict", "oldemptydict", "newkeys"}:
+                return "absent-recorded-as-null"   # {} -> {k: v}: the new keys are recorded as Empty
             if "oldemptydict" in tags and tags <= {"olddict", "oldemptydict", "again"}:
                 return "old-value-empty-dictionary"
             if tags & _A and tags <= _A | {"olddict"}:
@@ -200,6 +206,14 @@ class C14(Check):
             if "below" in tags and tags <= _B | {"olddict", "above"}:
                 return "modified-below-modified"
             if {"again", "olddict"} <= tags and tags <= _B | {"olddict", "above"}:
+                return "modified-below-modified"
+            # both root causes in one minimal witness: an absent key below (or at) an already modified path
+            # (also with an incidental restore of an unmodified path that made the key absent)
+            if tags & _A and tags <= _A | _B | {"olddict", "above", "restoreunmodified", "toprestore"}:
+                return "absent-recorded-as-null"
+            # re-modification at/below a modified path with incidental features of the intermediate dictionary
+            if ("below" in tags or {"again", "olddict"} <= tags) and \
+                    tags <= _A | _B | {"olddict", "above", "oldemptydict", "dotkey", "restoreunmodified"}:
                 return "modified-below-modified"
             return "other"
         if clause == "stateRoundtrip":
@@ -231,6 +245,7 @@ class C14(Check):
     def correspondence(self, tier, seed, harness, driver):
         res = runner.Result()
         total = {}
+        self.max_groups = 600 if tier == "thorough" else 150
         for cf in sorted(glob.glob(os.path.join(core.ROOT, "corpus", "C14", "*.ops"))):
             save = self.work("corpus.out")
             lines = self._run([harness, "ops", cf], driver, save)
